@@ -8,7 +8,7 @@ The solver decides all equal/different relations between successive inodes."""
 MOD = "checks.c15"
 
 EVENTS = ["same/good", "same/check-condition", "replaced/close-ok", "replaced/close-fails", "absent",
-          "replaced/reopen-refused-once"]
+          "replaced/reopen-refused", "replaced/node-flickers-after-reopen"]
 
 
 class _Sc:
@@ -50,21 +50,43 @@ def h_history(ctx, k, detect, readwrite, finish):
         live = E.handles[-1]
         sc.fail_next = (ev == 1)
         raw = bool(ctx.choose("raw_sense%d" % t, ["no", "yes"])) if k <= 2 else False
-        replaced = ev in (2, 3, 5)
+        replaced = ev in (2, 3, 5, 6)
         prev_ino = cur_ino
         if replaced:
             cur_ino = ctx.int("ino%d" % t, 12)
             E.cur_inode = cur_ino
             live.close_raises = (ev == 3)
             if ev == 5:
+                # the node cannot be opened for as long as this execute lasts (however often it is tried)
                 E.open_error = PermissionError(13, "Permission denied (stub: node not ready yet)")
+                E.open_error_sticky = True
+            if ev == 6:
+                E.flicker_after_open = True
         elif ev == 4:
             E.cur_inode = None
         n_sent = len(E.sgio_calls)
         st, r = ctx.attempt(dev.execute, _cmd(dev), en_raw_sense=raw)
         sent = E.sgio_calls[n_sent:]
+        if ev == 6:
+            flickered = not E.flicker_after_open and not E.stat_fails_once   # the one-shot was consumed by a re-open
+            E.flicker_after_open = E.stat_fails_once = False
+            if detect and flickered:
+                # the new node was opened, then it was gone for a moment: the error is reported, nothing is sent through
+                # any handle -- and the handle opened in between is not lost (released with the device at the end)
+                ctx.check("step %d: a node that flickers during the re-open is reported, nothing is sent" % t,
+                          ctx.oracle(st == "exc" and not sent), repr(r))
+                sc.fail_next = False
+                n2 = len(E.sgio_calls)
+                st2, r2 = ctx.attempt(dev.execute, _cmd(dev))
+                for call in E.sgio_calls[n2:]:
+                    ctx.check("step %d: after the flicker the next command uses a live handle on the current node" % t,
+                              (call.file.inode == ctx.oracle(E.cur_inode)) & (call.file.close_calls == 0))
+                live.close_raises = False
+                prev_ino = cur_ino
+                continue
         if ev == 5:
             E.open_error = None
+            E.open_error_sticky = False
             really_replaced = detect and bool(cur_ino != prev_ino)
             if really_replaced:
                 # the re-open was refused once: the failure is reported and nothing goes through the stale handle;
@@ -168,9 +190,42 @@ def h_iscsi_release(ctx, finish):
     ctx.check("iSCSI session disconnected exactly once", len([x for x in c.calls if x[0] == "disconnect"]) == ctx.oracle(1))
 
 
+def h_two_objects(ctx, rw1, rw2):
+    """two device objects on the same path (say a read-only and a read-write one), replugs in between: each object's
+    commands go through a handle of its own on the node that exists when the command is sent"""
+    from stubs import env
+    sd, idv = env.install()
+    sc = _Sc(ctx)
+    env.ENV.reset(sc)
+    E = env.ENV
+    E.cur_inode = ctx.int("ino0", 12)
+    a = sd.SCSIDevice("/dev/sg3", readwrite=rw1, detect_replugged=True)
+    b = sd.SCSIDevice("/dev/sg3", readwrite=rw2, detect_replugged=True)
+    for t in range(1, 4):
+        if ctx.choose("replug%d" % t, ["no", "yes"]):
+            E.cur_inode = ctx.int("ino%d" % t, 12)
+        order = (a, b) if ctx.choose("first%d" % t, ["a", "b"]) == 0 else (b, a)
+        for dev in order:
+            n = len(E.sgio_calls)
+            st, r = ctx.attempt(dev.execute, _cmd(dev))
+            ctx.check("round %d: the command completes" % t, ctx.oracle(st == "ok"), repr(r))
+            for call in E.sgio_calls[n:]:
+                ctx.check("round %d: each object sends through a handle on the node that exists now" % t,
+                          call.file.inode == ctx.oracle(E.cur_inode))
+                ctx.check("round %d: the handle used is open" % t, call.file.close_calls == 0)
+                ctx.check("round %d: the handle used is the object's own" % t, call.file is dev._file)
+    a.close()
+    b.close()
+    for h in E.handles:
+        ctx.check("every handle ever opened is released", h.close_calls >= ctx.oracle(1))
+    ctx.check("the two live handles are released exactly once", a._file.close_calls == 1 and b._file.close_calls == 1)
+
+
 def obligations(tier):
     from symx.harness import Ob
     obs = []
+    for rw1, rw2 in ((False, False), (False, True), (True, True)):
+        obs.append(Ob("two-objects/rw=%s,%s" % (rw1, rw2), MOD, "h_two_objects", {"rw1": rw1, "rw2": rw2}, split=True))
     ks = (1, 2, 3) if tier == "quick" else (1, 2, 3, 4, 5)
     for k in ks:
         for detect in (True, False):
